@@ -10,11 +10,18 @@ REPO_TRUSTED = [
     "axioms: none (Print Assumptions: Closed under the global context)",
     "extraction: ExtrOcamlBasic only; ocamlfind ocamlopt 4.13.1; coq/extract/common.ml + repo_driver.ml (parsing/printing)",
     "correspondence: vlib/repo.py (scenario runner on the hook-instrumented xvc binary built from /repo, observer of workspace / cache / stores, canonicaliser), vlib/repocheck.py; tools/blake3_ref.py and Python hashlib as independent hash implementations",
-    "modelled, not verified: file/src/{track,carry_in,recheck}/mod.rs, file/src/common/{mod,compare}.rs (move_to_cache, recheck_from_cache, diff_*), core/src/types/{xvcpath,diff}.rs, xvcdigest (text/binary normalisation) as Repo/Model.v; hash functions are ideal (digest = algorithm + normalised content); the five component stores are seen through their loaded maps (justified by C08); target resolution is given (explicit file targets); .gitignore handling is not in this model",
-    "the visiting order of the targets of one command (HashMap iteration, rayon) is a parameter of the model: the order logged by the implementation is used, permutations are tried on a mismatch",
-    "environment assumptions: on the implementation side every user write of the runner gets a distinct explicit mtime (in the model edits_visible is a theorem: Repo/Stamps.v); POSIX rename/link/symlink semantics; interleavings INSIDE one carry_in closure in parallel mode are not modelled (explored only by the parallel runs; open finding P44 parallel-duplicate-race)",
-    "theorems exclude one boolean class, decided by running the model on the history: relink (a commit renames a workspace symlink / hard link into the cache; open finding P41), and where stated the CR/LF alias classes (P2)",
+    "modelled, not verified: file/src/{track,carry_in,recheck}/mod.rs, file/src/common/{mod,compare}.rs (move_to_cache, rename_or_copy, is_link_to_cache, recheck_from_cache, diff_*), core/src/types/{xvcpath,diff}.rs, xvcdigest (text/binary normalisation) as Repo/Model.v (the code before the repairs of P41 and P44/P42) and Repo/Fix.v (the same commands with one switch per repair; Props/C02.v model_with_switches_off: with both switches off it is Repo/Model.v); hash functions are ideal (digest = algorithm + normalised content); the five component stores are seen through their loaded maps (justified by C08); target resolution is given (explicit file targets); .gitignore handling is not in this model",
+    "the switches fixed_P44 / fixed_P41 are derived on every run by probing the binary under test (vlib/repo.py:probe_fixes: five small histories whose outcome differs between the code with and without each repair, and four parallel runs of 8 equal files); a probe that fits neither side is a correspondence failure; the model runs under the switches found",
+    "the visiting order of the targets of one command (HashMap iteration, rayon, with the repair of P44: sorted groups per cache directory) is a parameter of the model: the order logged by the implementation is used, permutations are tried on a mismatch",
+    "environment assumptions: on the implementation side every user write of the runner gets a distinct explicit mtime (in the model edits_visible is a theorem: Repo/Stamps.v); POSIX rename/link/symlink semantics, st_nlink; interleavings INSIDE one carry_in closure are not modelled: until P44 is repaired two closures can race on one cache path (open finding parallel-duplicate-race); with the repair all targets of one cache directory are handled by one thread and closures of different directories touch disjoint files, so every schedule equals a sequential visiting order (argued, and explored by the parallel runs)",
+    "theorems exclude boolean classes decided by running the model on the history: relink (a commit renames a workspace symlink / hard link into the cache; open finding P41; EMPTY once P41 is repaired: Props/C02.v relink_class_empty_when_fixed), forced-duplicate (P42; empty once repaired), a symbolic link gone stale inside a forced carry-in that swapped its object for a CR/LF alias (a corner of P2; Props/C02.v stale_link_witness), and where stated the CR/LF alias classes (P2)",
 ]
+
+
+def fixed(which):
+    """does the binary under test contain the repair (probed on every run: vlib/repo.py:probe_fixes)?"""
+    fx = R.current_fixes()
+    return fx[{"P44": 0, "P42": 0, "P41": 1, "P49": 2, "P43": 3}[which]] == "1"
 
 
 def contents_before(robs, j, p):
@@ -120,8 +127,8 @@ def race_index(sc):
     cache address (equal bytes or equal CR/LF-normal form, same extension), else None.  The per-target
     closures of carry_in() then race on one cache path (open finding parallel-duplicate-race); the model
     is sequential, and what the implementation does from there on depends on the thread schedule."""
-    if not sc.parallel or not sc.robs:
-        return None
+    if not sc.parallel or not sc.robs or fixed("P44"):
+        return None          # with the repair the targets of one cache path are handled by one thread: nothing is excluded
     for j, it in enumerate(sc.eff[:len(sc.robs)]):
         if dup_targets(sc.robs, j, it, sc.cfg):
             return j
@@ -185,6 +192,8 @@ def relink_taint(sc):
     (class 'relink': the target of a track / carry-in was a symlink or a hard link to a cache object
     and the command created a new cache file from it, or replaced one with --force)"""
     tainted, out = set(), []
+    if fixed("P41"):
+        return [set() for _ in sc.robs]      # no link is renamed into the cache any more: the class is empty
     for j, it, b, a in before_after(sc):
         if it[0] in ("track", "carry"):
             for p in it[2]:
@@ -262,6 +271,11 @@ def c01_oracle(sc):
                 if ad and ad in b["objs"] and ad not in a["objs"] and p in a["recs"] and addr_of(a["recs"][p], p) == ad:
                     bad.append((j, "the committed content of %s (object %s) is no longer in the cache after `%s`" % (p, ad[:24], it[0] + (" --force" if it[1].get("f") else "")),
                                 "relink" if ad in taint[j] else None))
+        if it[0] == "carry" and a["oc"] == "Panic" and any(p in b["recs"] and p not in b["ws"] for p in it[2]):
+            # (d) a carry-in that meets a path whose workspace copy is gone (the situation the property speaks of: "deleting
+            # ... the workspace copy") must leave that path to recheck and commit the others; it stopped with a panic
+            bad.append((j, "carry-in panicked on a target that is not in the workspace (%s); none of the other targets was committed" % (
+                ", ".join(p for p in it[2] if p in b["recs"] and p not in b["ws"])), None if fixed("P49") else "carry-in-missing-target-panics"))
         if a["oc"] == "Panic":
             break
         ex.update(it, b, a)
@@ -313,12 +327,23 @@ def c02_oracle(sc):
     taint = relink_taint(sc)
     for j, it, b, a in before_after(sc):
         after_panic = a["oc"] == "Panic"
+        forced_carry = it[0] == "carry" and it[1].get("f")
+        # P2 inside this very command: a pre-existing object now holds a CR/LF alias of its former bytes
+        swapped = forced_carry and any(pe is not None and pe[0] == "F" and e[0] == "F" and pe[3] not in ("!", "?") and e[3] not in ("!", "?")
+                                       and alias_pair(bytes.fromhex(pe[3]), bytes.fromhex(e[3]))
+                                       for ad_, e in a["objs"].items() for pe in [b["objs"].get(ad_)])
         for v in R.cas_check(a) + layout_check(a, sc.cfg):
             m = _re.search(r"(?:object|entry|directory of object) (\S+)", v)
             ad = m.group(1) if m else None
             klass = None
-            if ad in taint[j] or ("not a regular file" in v):
+            if ad in taint[j] or ("not a regular file" in v and not fixed("P41")):
                 klass = "relink"
+            elif "does not hash" in v and swapped and ad not in b["objs"] and a["objs"][ad][3] not in ("!", "?") and any(
+                    (b["ws"].get(p) or ["-"])[0].startswith("L") and b["ws"][p][2] not in ("!", "?")
+                    and alias_pair(bytes.fromhex(b["ws"][p][2]), bytes.fromhex(a["objs"][ad][3])) for p in it[2]):
+                # ... and a target that is a symbolic link to it was committed afterwards to the address computed from the
+                # former bytes (Props/C02.v stale_link_witness): a consequence of the alias swap, P2
+                klass = "alias-object-swapped"
             if after_panic and "writable" in v:
                 klass = "left-writable-after-panic"
             bad.append((j, v, klass))
@@ -455,6 +480,10 @@ def c17_oracle(sc):
                 newly = rb is None or rb[0] != ra[0]
                 if not newly and not it[1].get("m"):
                     continue          # nothing to commit and no method named: nothing is promised
+                if not newly and fixed("P43") and rb[1] == m and kind_ok(b, p, rb[1], ad) is not None:
+                    # the method named is the one recorded already and the entry was not of that kind before the command (the user
+                    # replaced it): like recheck, track goes by the records: nothing is promised
+                    continue
                 what = kind_ok(a, p, m, ad)
                 if what is None and ra[1] != m:
                     what = "method in force %s, recorded afterwards %s" % (m, ra[1])
@@ -462,9 +491,9 @@ def c17_oracle(sc):
                     klass = None
                     if ad in taint[j]:
                         klass = "relink"
-                    elif not newly:
+                    elif not newly and not fixed("P43"):
                         klass = "track-method-unchanged-content"
-                    elif it[1].get("f") and sum(1 for q in set(a["recs"]) if addr_of(a["recs"][q], q) == ad) > 1:
+                    elif it[1].get("f") and not fixed("P42") and sum(1 for q in set(a["recs"]) if addr_of(a["recs"][q], q) == ad) > 1:
                         klass = "forced-duplicate"
                     bad.append((j, "track %s of %s: %s" % (it[1].get("m") or "(default %s)" % m, p, what), klass))
                 else:
@@ -482,7 +511,7 @@ def c17_oracle(sc):
                     klass = None
                     if ad in taint[j]:
                         klass = "relink"
-                    elif it[1].get("f") and sum(1 for q in set(a["recs"]) if addr_of(a["recs"][q], q) == ad) > 1:
+                    elif it[1].get("f") and not fixed("P42") and sum(1 for q in set(a["recs"]) if addr_of(a["recs"][q], q) == ad) > 1:
                         klass = "forced-duplicate"
                     bad.append((j, "carry-in of %s (stored method %s): %s" % (p, rb[1], what), klass))
                 else:
@@ -494,7 +523,11 @@ def c17_oracle(sc):
                     continue
                 adq = addr_of(rq, q)
                 if rq[1] == "hardlink" and b["ws"][q][0] == "H" + str(adq) and a["ws"][q][0] != b["ws"][q][0]:
-                    bad.append((j, "%s --force of another path unlinked the hard link %s from its object" % (k, q), "forced-duplicate"))
+                    # what --force is documented to do ("removes the file in cache and re-adds it") gives the object a new
+                    # inode; a path OUTSIDE the command's targets that was a hard link to the old one keeps its bytes but is
+                    # no longer linked (P42b; until the repair of P42 is in the tree it shares P42's class)
+                    bad.append((j, "%s --force of another path unlinked the hard link %s from its object" % (k, q),
+                                "forced-replace-detaches-hardlink" if fixed("P42") else "forced-duplicate"))
     return bad
 
 
@@ -584,12 +617,57 @@ def gen_c17(rng, idx):
             items.append(("W", p, rng.choice(pool)))
             items.append((rng.choice(["carry", "track"]), {}, [p]))
         elif x < 0.56:
-            items.append(("U", p))
-            items.append(("track", {"m": rng.choice(R.METHODS)}, [p]))
+            if rng.random() < 0.6:
+                items.append(("U", p))
+            items.append(("track", {"m": rng.choice(R.METHODS)}, [p] if rng.random() < 0.7 else list(paths)))
         items.append(("recheck", {"m": m, "f": rng.random() < 0.25}, [p] if rng.random() < 0.7 else list(paths)))
         if rng.random() < 0.4:
             items.append(("D", p))
             items.append(("recheck", {}, [p]))                   # plain: the stored method
+    return cfg, items
+
+
+DUP_PATHS = ["a.txt", "b.txt", "c.txt", "d/a.txt", "d/e/f.txt", "sp ace.txt", "ü.txt", "x.dat", "a.dat"]
+
+
+def gen_dups(rng, idx):
+    """(generated only when the repair of P44 / P42 is in the tree: before it these inputs are the excluded class)
+    3-6 paths with EQUAL content -- mostly one extension, so one cache path; some with another extension, so another
+    file in the same cache directory; sometimes a CR/LF alias among them -- committed by ONE track command with a link
+    method, with and without --force, then carried in / re-tracked / re-committed under another text-or-binary mode
+    together, and restored"""
+    cfg = {"algo": list(R.ALGOS)[idx % 4], "method": rng.choice(["hardlink", "symlink", "copy", "hardlink"]), "tob": "auto" if rng.random() < 0.8 else rng.choice(R.TOBS)}
+    paths = rng.sample(DUP_PATHS[:7], rng.randint(3, 5)) + (rng.sample(DUP_PATHS[7:], rng.randint(0, 2)) if rng.random() < 0.5 else [])
+    c0 = rng.choice([b"same", b"hello\r\n", b"a\nb\n", b"", b"\0bin\n", b"x" * 7999 + b"\0"])
+    alias = {b"a\nb\n": b"a\r\nb\r\n", b"hello\r\n": b"hello"}.get(c0)
+    items = []
+    for p in paths:
+        items.append(("W", p, alias if (alias is not None and rng.random() < 0.15) else c0))
+    link = lambda: rng.choice(["hardlink", "symlink", "hardlink", "symlink", "copy", None])
+    items.append(("track", {"m": link(), "f": rng.random() < 0.35}, list(paths)))
+    for _ in range(rng.randint(1, 3)):
+        x = rng.random()
+        some = rng.sample(paths, rng.randint(2, len(paths)))
+        if x < 0.3:
+            items.append(("carry", {"f": rng.random() < 0.7}, some))
+        elif x < 0.5:
+            for p in some[:2]:
+                items.append(("W", p, c0))
+            items.append(("track", {"m": link(), "f": rng.random() < 0.6}, some))
+        elif x < 0.65:
+            for p in some[:2]:
+                items.append(("U", p))
+            items.append(("track", {"t": rng.choice(["binary", "text"]), "m": link()}, some))
+        elif x < 0.8:
+            items.append(("recheck", {"m": rng.choice(R.METHODS), "f": rng.random() < 0.4}, some))
+        else:
+            c1 = rng.choice([b"other", b"other\n", c0 + b"+"])
+            for p in some:
+                items.append(("W", p, c1))
+            items.append((rng.choice(["carry", "track"]), {"f": rng.random() < 0.3}, some))
+    for p in rng.sample(paths, min(2, len(paths))):
+        items.append(("D", p))
+        items.append(("recheck", {"m": rng.choice(R.METHODS + [None])}, [p]))
     return cfg, items
 
 
@@ -626,6 +704,16 @@ def drive(chk, replay, prop, gen, oracle, nontrivial, n_quick, n_thorough, rule,
     chk.proof()
     model = C.ensure_model("Repo", ["Base", "Repo"])
     xvc = C.ensure_xvc()
+    # the switches of Repo/Fix.v: probed on the binary under test, never assumed
+    try:
+        fx, det = R.current_fixes(xvc, details=True)
+    except R.ProbeError as e:
+        chk.fail("correspondence", "the probes that decide which repairs (P44/P42, P41) the binary contains are inconclusive: %s" % e,
+                 {"theorem_or_correspondence": "model switches fixed_P44 / fixed_P41 of Repo/Fix.v vs the binary (vlib/repo.py:probe_fixes)"},
+                 name="probe", has_input=False)
+        return chk
+    chk.cov["model_switches"] = {"fixed_P44": fx[0] == "1", "fixed_P41": fx[1] == "1", "fixed_P49": fx[2] == "1", "fixed_P43": fx[3] == "1", "probes": det,
+                                 "derived_by": "vlib/repo.py:probe_fixes on the binary built from the tree under test"}
     scs = []
     if replay:
         scs = [from_replay(replay)]
@@ -637,7 +725,15 @@ def drive(chk, replay, prop, gen, oracle, nontrivial, n_quick, n_thorough, rule,
                 scs.append(from_replay(dict(rep, parallel=par), len(scs)))
         ncorpus = len(scs)
         n = n_quick if chk.tier == "quick" else n_thorough
+        ndup = 0
         for i in range(n):
+            if fixed("P44") and i % 5 == 3:
+                # formerly excluded inputs: equal content at several targets of one command, mostly in parallel mode
+                cfg, items = gen_dups(chk.rng, i)
+                ndup += 1
+                scs.append(Scenario(len(scs), cfg, items, parallel=(ndup % 3 != 0)))
+                scs[-1].dups = True
+                continue
             cfg, items = gen(chk.rng, i)
             scs.append(Scenario(len(scs), cfg, items, parallel=(i % 2 == 1)))
     with ThreadPoolExecutor(threads) as ex:
@@ -648,7 +744,7 @@ def drive(chk, replay, prop, gen, oracle, nontrivial, n_quick, n_thorough, rule,
     if len(aside) > max(3, len(scs) // 4):
         chk.fail("correspondence", "%d of %d histories could not be executed: %s" % (len(aside), len(aside) + len(scs), aside[0].log),
                  {"theorem_or_correspondence": "scenario runner"}, name="runner", has_input=False)
-    dist = {"histories": len(scs), "items": 0, "track": 0, "carry": 0, "recheck": 0, "user": 0, "panics": 0, "errors": 0,
+    dist = {"histories": len(scs), "duplicate_target_histories": sum(1 for sc in scs if getattr(sc, "dups", False)), "items": 0, "track": 0, "carry": 0, "recheck": 0, "user": 0, "panics": 0, "errors": 0,
             "parallel": 0, "algo": {}, "default_method": {}, "tob": {}, "methods_requested": {}, "forced": 0}
     reported = 0
     for sc in scs:
@@ -694,7 +790,10 @@ def drive(chk, replay, prop, gen, oracle, nontrivial, n_quick, n_thorough, rule,
     for sc in scs[:1] + scs[-2:]:
         chk.sample(to_replay(sc))
     chk.cov["distribution"] = dist
-    chk.cov["rule"] = rule
+    chk.cov["rule"] = rule + ((" With the repair of P44 / P42 found in the binary every fifth generated history is of the formerly excluded kind: "
+                              "3-7 paths with EQUAL content (one cache path; some with another extension: one cache directory; sometimes a CR/LF alias) "
+                              "committed by ONE track command with a link method, with and without --force, two thirds of them in parallel mode, then "
+                              "carried in / re-tracked / re-committed under another text-or-binary mode together, and restored.") if fixed("P44") else "")
     return chk
 
 
